@@ -197,3 +197,101 @@ Record sb_case := SB { sb_nb : Z; sb_m : Z; sb_n : Z; sb_d : list Z; sb_rc : lis
 Definition sb_ok (c : sb_case) : bool :=
   lz_eqb (map (fun '(r, k) => sumbatch_get_indices (stack_at (sb_m c) (sb_n c) (sb_d c)) (Z.to_nat (sb_nb c)) r k) (sb_rc c)) (sb_obs c).
 Definition bad_sb (cs : list sb_case) : list nat := bad sb_ok cs 0.
+
+(* ===================================================================================== *)
+(* ---- L3x: the nested class-level entry formulas of Model.v part 7, evaluated element-wise over index tensors (gi_elem),
+        vs the real _get_indices of (nested) operators; leaves are dense tensors *)
+Inductive xop :=
+| XDense (t : tensor)
+| XToeplitz (col : tensor)
+| XDiag (d : tensor)
+| XKron (fs : list xop)
+| XBlockDiag (b : xop)
+| XBlockInterleaved (b : xop)
+| XBatchRepeat (b : xop) (reps : list nat)
+| XRoot (r : xop)
+| XMatmul (l r : xop)
+| XSumBatch (b : xop)
+| XSum (es : list xop)
+| XMul (l r : xop)
+| XConstMul (c : tensor) (b : xop)
+| XMasked (b : xop) (rm cm : list bool)
+| XInterp (b : xop) (li lv ri rv : tensor)
+| XCat (es : list xop) (dim : nat).
+
+Definition sh_batch (s : list nat) : list nat := firstn (length s - 2) s.
+Definition sh_m (s : list nat) : nat := nth (length s - 2) s 0%nat.
+Definition sh_n (s : list nat) : nat := nth (length s - 1) s 0%nat.
+Definition count_true (l : list bool) : nat := length (filter (fun b => b) l).
+Fixpoint map2mul (a b : list nat) : list nat := match a, b with x :: a', y :: b' => (x * y)%nat :: map2mul a' b' | _, _ => [] end.
+
+Fixpoint xshape (e : xop) : list nat :=
+  match e with
+  | XDense t => tshape t
+  | XToeplitz col => tshape col ++ [last (tshape col) 0%nat]
+  | XDiag d => tshape d ++ [last (tshape d) 0%nat]
+  | XKron fs => match fs with
+                | [] => []
+                | f :: _ => sh_batch (xshape f) ++ [prod (map (fun g => sh_m (xshape g)) fs); prod (map (fun g => sh_n (xshape g)) fs)]
+                end
+  | XBlockDiag b => let s := xshape b in let k := nth (length s - 3) s 0%nat in
+                    firstn (length s - 3) s ++ [(k * sh_m s)%nat; (k * sh_n s)%nat]
+  | XBlockInterleaved b => let s := xshape b in let k := nth (length s - 3) s 0%nat in
+                    firstn (length s - 3) s ++ [(sh_m s * k)%nat; (sh_n s * k)%nat]
+  | XBatchRepeat b reps => let s := xshape b in
+                    map2mul reps (repeat 1%nat (length reps - length (sh_batch s)) ++ sh_batch s) ++ [sh_m s; sh_n s]
+  | XRoot r => let s := xshape r in sh_batch s ++ [sh_m s; sh_m s]
+  | XMatmul l r => sh_batch (xshape l) ++ [sh_m (xshape l); sh_n (xshape r)]
+  | XSumBatch b => let s := xshape b in firstn (length s - 3) s ++ [sh_m s; sh_n s]
+  | XSum es => match es with [] => [] | f :: _ => xshape f end
+  | XMul l _ => xshape l
+  | XConstMul _ b => xshape b
+  | XMasked b rm cm => sh_batch (xshape b) ++ [count_true rm; count_true cm]
+  | XInterp b li _ ri _ => sh_batch (xshape b) ++ [sh_m (tshape li); sh_m (tshape ri)]
+  | XCat es dim => match es with
+                   | [] => []
+                   | f :: _ => set_nth (xshape f) dim (fold_right Nat.add 0%nat (map (fun g => nth dim (xshape g) 0%nat) es))
+                   end
+  end.
+
+(* the interpolation indices / values of one (batch, row): the last dimension of the tensor at those coordinates *)
+Definition fibre (t : tensor) (y : list nat) : list Z := map (fun a => tget t (y ++ [a])) (seq 0 (sh_n (tshape t))).
+
+Fixpoint xfml (e : xop) : list nat -> Z :=
+  match e with
+  | XDense t => tget t
+  | XToeplitz col => toeplitz_f (tget col) (last (tshape col) 0%nat)
+  | XDiag d => diag_f (tget d)
+  | XKron fs => kron_f (map (fun g => (sh_m (xshape g), sh_n (xshape g), xfml g)) fs)
+  | XBlockDiag b => blockdiag_f (xfml b) (sh_m (xshape b)) (sh_n (xshape b))
+  | XBlockInterleaved b => let s := xshape b in blockinterleaved_f (xfml b) (nth (length s - 3) s 0%nat)
+  | XBatchRepeat b _ => batchrepeat_f (xfml b) (sh_batch (xshape b))
+  | XRoot r => root_f (xfml r) (sh_n (xshape r))
+  | XMatmul l r => matmul_f (xfml l) (xfml r) (sh_n (xshape l))
+  | XSumBatch b => let s := xshape b in sumbatch_f (xfml b) (nth (length s - 3) s 0%nat)
+  | XSum es => sum_f (map xfml es)
+  | XMul l r => mul_f (xfml l) (xfml r)
+  | XConstMul c b => constmul_f (fun y => tget_b (tshape c) (tdata c) (sh_batch (xshape b)) y) (xfml b)
+  | XMasked b rm cm => masked_f (xfml b) rm cm
+  | XInterp b li lv ri rv => interp_f (xfml b) (fibre li) (fibre lv) (fibre ri) (fibre rv)
+  | XCat es dim => cat_f (map xfml es) (map (fun g => nth dim (xshape g) 0%nat) es) dim
+  end.
+
+Record xgi_case := XG { xg_e : xop; xg_ts : list (list nat * list Z); xg_obs : option tensor }.
+Definition xgi_ok (c : xgi_case) : bool := otensor_eqb (gi_elem (xfml (xg_e c)) (xshape (xg_e c)) (xg_ts c)) (xg_obs c).
+Definition bad_xgi (cs : list xgi_case) : list nat := bad xgi_ok cs 0.
+
+(* ---- L3g: class-level _getitem for basic indices over dense children vs the real _getitem(..).to_dense() *)
+Inductive gop :=
+| GMatmul (l r : tensor) | GSumBatch (b : tensor) | GSum (a b : tensor) | GConstMul (c b : tensor) | GZero (shape : list nat).
+Definition gop_getitem (g : gop) : list item -> option tensor :=
+  match g with
+  | GMatmul l r => matmul_getitem (dense_getitem l) (dense_getitem r)
+  | GSumBatch b => sumbatch_getitem (dense_getitem b)
+  | GSum a b => sum_getitem (dense_getitem a) (dense_getitem b)
+  | GConstMul c b => constmul_getitem c (dense_getitem b)
+  | GZero shape => zero_getitem shape
+  end.
+Record xgt_case := XT { xt_g : gop; xt_its : list item; xt_obs : option tensor }.
+Definition xgt_ok (c : xgt_case) : bool := otensor_eqb (gop_getitem (xt_g c) (xt_its c)) (xt_obs c).
+Definition bad_xgt (cs : list xgt_case) : list nat := bad xgt_ok cs 0.
